@@ -168,6 +168,7 @@ type WEval struct {
 	inPhi      map[*ssa.Phi]bool
 	elemNames  map[ssa.Value]string // loop element loads -> "coll[i]"
 	allocEpoch map[*ssa.Alloc]int   // reader paths: named locals are printed as name#epoch
+	pathPhi    map[*ssa.Phi]ssa.Value // evaluation along one enumerated path: the incoming value chosen at each merge
 }
 
 func newWEval(p *Prog, fn *ssa.Function) *WEval {
@@ -905,6 +906,9 @@ func (w *WEval) blockDead(b *ssa.BasicBlock) bool {
 }
 
 func (w *WEval) evalPhi(ph *ssa.Phi) *Lay {
+	if ch, ok := w.pathPhi[ph]; ok {
+		return w.eval(ch)
+	}
 	if w.inPhi[ph] {
 		return &Lay{K: "phiref"}
 	}
